@@ -43,7 +43,58 @@ def make_package(seed):
             names.add(nm)
             size = 0 if nm.endswith("/") else rng.choice([0, 1, 10, 1000, 70000])
             parts.append({"name": nm, "hex": bytes(rng.randrange(256) for _ in range(min(size, 2000))).hex() * (35 if size > 2000 else 1)})
+    preexisting_map(rng, parts)
     return D.build_docx(parts, compression=rng.choice([None, "deflate", "mixed"]))
+
+
+def preexisting_map(rng, parts):
+    """now and then the package the history starts from already carries a style map: the part alone (possibly EMPTY), the part with
+    its relationship and content-type entries (what an earlier embed leaves behind), or the two entries without the part"""
+    r = rng.random()
+    if r < 0.6:
+        return
+    from gen_docx import el
+    if r < 0.9:
+        old = rng.choice(["", "", "p => h5", "r => strong\np.Tip => aside", "é => ü", "p.Old%d => h1:fresh\n" % rng.randint(0, 9) * rng.choice([1, 300])])
+        parts.append({"name": STYLE, "hex": old.encode("utf-8").hex()})
+    if r >= 0.75:
+        for p in parts:
+            if p["name"] == RELS:
+                p["xml"][2].insert(rng.randint(0, len(p["xml"][2])), el("relationships:Relationship", [("Id", "rMammothStyleMap"), ("Type", "http://schemas.zwobble.org/mammoth/style-map"), ("Target", "/mammoth/style-map")]))
+            if p["name"] == TYPES:
+                p["xml"][2].insert(rng.randint(0, len(p["xml"][2])), el("content-types:Override", [("PartName", "/mammoth/style-map"), ("ContentType", rng.choice(["text/prs.mammoth.style-map", "text/plain"]))]))
+
+
+# maps at the edge of "every string s": the empty string first of all (its encoding is the empty byte string, the one falsy
+# replacement content), then maps that are short, blank, or a single odd character
+EDGE_MAPS = ["", "", "", " ", "\n", "0", "\x00", "\ufeff", "\r\n", "#", "\U0001f600"]
+
+
+def with_edge_maps(rng, hist):
+    """put an edge map (mostly the empty one) first / in the middle / last / first and last / twice in a row into a history, or make
+    it the whole history; about half of the histories are left as they are"""
+    if rng.random() < 0.45:
+        return hist
+    e = rng.choice(EDGE_MAPS)
+    hist = list(hist)
+    where = rng.choice(["first", "middle", "last", "last", "first+last", "twice", "only", "after-long"])
+    if where == "first":
+        hist.insert(0, e)
+    elif where == "middle":
+        hist.insert(rng.randint(1, max(1, len(hist) - 1)), e)
+    elif where == "last":
+        hist.append(e)
+    elif where == "first+last":
+        hist = [e] + hist + [e]
+    elif where == "twice":
+        k = rng.randint(0, len(hist))
+        hist[k:k] = [e, rng.choice(EDGE_MAPS)]
+    elif where == "only":
+        hist = [e]
+    else:
+        k = max(range(len(hist)), key=lambda j: len(hist[j]))
+        hist.insert(k + 1, e)
+    return hist
 
 
 def style_text(rng):
@@ -175,6 +226,12 @@ def run(out, tier, seed, model_ok):
         if rng.random() < 0.7:
             hist.insert(rng.randrange(len(hist)), "\n".join("p.Long%d => h1" % k for k in range(rng.choice([200, 2000]))))
             hist.append("p => h2")
+        hist = with_edge_maps(rng, hist)
+        had_map = STYLE in read_zip(data0)[0]
+        ft = out.extra.setdefault("c12_features", {})
+        for key, hit in (("package_already_has_map", had_map), ("history_with_empty_map", "" in hist), ("empty_map_first", hist[0] == ""), ("empty_map_last", hist[-1] == ""),
+                         ("empty_map_inside", "" in hist[1:-1]), ("empty_map_after_nonempty", any(a and not b for a, b in zip(hist, hist[1:])))):
+            ft[key] = ft.get(key, 0) + (1 if hit else 0)
         on_disk = rng.random() < 0.5
         cur = data0
         for step, s in enumerate(hist):
@@ -215,9 +272,10 @@ def run(out, tier, seed, model_ok):
             probs = check_embed(out, cur, after, s, "h", model_ok, case)
             out.count(key="emb-%d-%d-%d" % (seed, i, step), nontrivial=len(after) < len(cur))
             # converting the file equals converting the original with style_map=s
-            if step == 0:
+            if step == 0 or step == len(hist) - 1 or len(s) < 3:
                 a = D.run_real(after, {}, want_doc=False)
-                b = D.run_real(data0, {"styleMap": s}, want_doc=False)
+                # (a package that came with a map of its own: that map is replaced, so the original is converted without it)
+                b = D.run_real(data0, {"styleMap": s, "includeEmbedded": False} if had_map else {"styleMap": s}, want_doc=False)
                 if (a.get("value"), a.get("messages"), a.get("err")) != (b.get("value"), b.get("messages"), b.get("err")):
                     probs.append("converting the embedded file differs from converting the original with style_map=s")
             if probs:
@@ -226,9 +284,21 @@ def run(out, tier, seed, model_ok):
             cur = after
         # faults: an I/O error at each file operation of one embed
         if i % (3 if tier == "quick" else 2) == 0:
-            s = style_text(rng)
+            s = style_text(rng) if rng.random() < 0.75 else rng.choice(EDGE_MAPS)
             probe = Faulty(io.BytesIO(data0), 10 ** 9)
-            mammoth.embed_style_map(probe, s)
+            case = {"kind": "embed-history", "docx_hex": data0.hex() if len(data0) < 30000 else None, "history": [s], "on_disk": False, "file_object": "wrapper", "seed": seed * 1000003 + i}
+            try:
+                # no fault injected yet: the call on a (non-BytesIO) file object must succeed and do what every embed does
+                mammoth.embed_style_map(probe, s)
+            except Exception as e:  # noqa
+                out.count(key="probe-%d-%d" % (seed, i), nontrivial=True)
+                out.violation("embed_style_map raised %s (no fault injected)" % type(e).__name__, case, actual=repr(e)[:300])
+                continue
+            probs = check_embed(out, data0, probe.f.getvalue(), s, "p", model_ok, case)
+            out.count(key="probe-%d-%d" % (seed, i), nontrivial=True)
+            if probs:
+                out.violation("; ".join(probs[:3]), case)
+                continue
             total = probe.n
             for k in range(1, total + 1):
                 f = Faulty(io.BytesIO(data0), k)
